@@ -4,6 +4,7 @@ import (
 	"fmt"
 	"go/constant"
 	"go/token"
+	"go/types"
 	"sort"
 	"strings"
 
@@ -21,6 +22,7 @@ func init() {
 			"R2 per-page sequence (ESP on the region measurement loop): within an iteration the page-add record precedes the extension records, both take the same page address expression, and extension is reachable only where the flag computed from the ExtendMR attribute or MeasureAllRegions is true. " +
 			"R3 hand-off block order (ESP on the hand-off builder — the function of package ovmf that writes an EFIHOBHandoffInfoTable): hand-off table → descriptors of the private (declared) resources → descriptors of the unaccepted resources → end-of-list marker → zero padding, and the buffer has no other writer. " +
 			"R4 table agreement: the section-type switches of the metadata validator and of the parser accept the same set of constants and both reject every other type. " +
+			"R5 sweep cursor: in the RAM-minus-sections sweep (the two-list function of package ovmf), every advance of the section cursor that is shared by all RAM banks is dominated, within the iteration, by the edge `section empty` or `value computed from the section <= a field of the current bank` — the invariant the function states in its own comment; this decides that one clause of the interval subtraction, not the subtraction. " +
 			"Not covered: the SHA-384 stream contents, the interval subtraction that derives unaccepted memory, RAM-bank table values (numeric clauses).",
 		Assumptions: []string{"go/types, go/ssa, VTA call graph"},
 		Run:         runC05,
@@ -31,38 +33,7 @@ func runC05(c *Ctx) {
 	abiPkg := repoPath("ovmf/abi")
 	sl := flow.NewSlicer(c.P)
 	// ---------------- R1 ----------------
-	nSort := 0
-	for _, f := range c.P.RepoFunctions() {
-		if load.RelPkg(f) != "ovmf" || c.isTestFunc(f) {
-			continue
-		}
-		for _, call := range callsIn(f, func(call ssa.CallInstruction) bool {
-			cal := call.Common().StaticCallee()
-			if cal == nil {
-				return false
-			}
-			if o := cal.Origin(); o != nil {
-				cal = o
-			}
-			n := cal.String()
-			return strings.HasPrefix(n, "slices.Sort") || strings.HasPrefix(n, "golang.org/x/exp/slices.Sort") || n == "sort.Slice" || n == "sort.SliceStable" || n == "sort.Sort" || n == "sort.Stable"
-		}) {
-			nSort++
-			arg := call.Common().Args[0]
-			if mi, ok := arg.(*ssa.MakeInterface); ok {
-				arg = mi.X
-			}
-			eff := &flow.Effects{P: c.P, Funcs: map[*ssa.Function]bool{f: true}, Roots: map[*ssa.Function]bool{f: true}}
-			fresh := true
-			for _, r := range eff.ProvenanceOf(arg, f) {
-				if r.Kind != flow.Fresh {
-					fresh = false
-				}
-			}
-			c.S.Check(fresh, "R1", load.FuncName(f)+":sort", c.pos(call.Pos()), "sorts a slice allocated in this function (a copy)", "a caller's slice is sorted in place: the declared order of sections / regions is lost")
-		}
-	}
-	c.S.Floor("R1", "sort calls in package ovmf", 1, nSort)
+	c.S.Floor("R1", "sort calls in package ovmf", 1, c.sortOnCopiesRule("R1", func(f *ssa.Function) bool { return load.RelPkg(f) == "ovmf" }))
 	mrtd := c.fn("R1", "tdx", "MRTD")
 	var initRegion *ssa.Function
 	if mrtd != nil {
@@ -370,4 +341,175 @@ func runC05(c *Ctx) {
 		}
 		c.S.Check(same, "R4", load.FuncName(tabs[0].f)+" ↔ "+load.FuncName(tabs[i].f), c.pos(tabs[i].f.Pos()), "validator and parser accept the same section types", "validator and parser accept different sets of section types")
 	}
+
+	// ---------------- R5 sweep cursor (stated invariant) ----------------
+	// The RAM-minus-sections sweep keeps one cursor into the sorted section list across all RAM
+	// banks; its own comment states the invariant "forall k < cursor, section[k].end() <= bank.Start".
+	// Structural necessary condition: every increment of such a shared cursor is dominated, within
+	// the iteration, by the edge "element is empty" or "something computed from the element <= a
+	// field of the current outer element" (not its end). Skipping an element on any other ground can
+	// drop the part of it that lies in a later bank.
+	nCursor := 0
+	for _, f := range c.P.RepoFunctions() {
+		if load.RelPkg(f) != "ovmf" || c.isTestFunc(f) || f.Blocks == nil {
+			continue
+		}
+		sig := f.Signature
+		isGPRs := func(t types.Type) bool {
+			st, ok := t.Underlying().(*types.Slice)
+			return ok && namedIs(st.Elem(), repoPath("ovmf"), "GuestPhysicalRegion")
+		}
+		if sig.Params().Len() != 2 || sig.Results().Len() != 1 || !isGPRs(sig.Params().At(0).Type()) || !isGPRs(sig.Params().At(1).Type()) || !isGPRs(sig.Results().At(0).Type()) {
+			continue
+		}
+		loops := naturalLoops(f)
+		for _, L := range loops {
+			for _, in := range L.Header.Instrs {
+				cur, ok := in.(*ssa.Phi)
+				if !ok {
+					break
+				}
+				if bt, ok := cur.Type().Underlying().(*types.Basic); !ok || bt.Kind() != types.Int {
+					continue
+				}
+				// carried across an enclosing loop: some edge is a φ of another loop's header
+				shared := false
+				var incs []*ssa.BinOp
+				for _, e := range cur.Edges {
+					if ph, ok := e.(*ssa.Phi); ok && ph != cur {
+						for _, L2 := range loops {
+							if L2 != L && L2.Header == ph.Block() && L2.Body[L.Header] {
+								shared = true
+							}
+						}
+					}
+					if bo, ok := e.(*ssa.BinOp); ok && bo.Op == token.ADD && bo.X == ssa.Value(cur) {
+						if k, ok := constInt(bo.Y); ok && k == 1 {
+							incs = append(incs, bo)
+						}
+					}
+				}
+				if !shared || len(incs) == 0 {
+					continue
+				}
+				// element cell: the local that receives SA[cur]
+				var elem *ssa.Alloc
+				for _, r := range nonDebugRefs(cur) {
+					ia, ok := r.(*ssa.IndexAddr)
+					if !ok || ia.Index != ssa.Value(cur) {
+						continue
+					}
+					for _, r2 := range nonDebugRefs(ia) {
+						if ld, ok := r2.(*ssa.UnOp); ok && ld.Op == token.MUL {
+							for _, r3 := range nonDebugRefs(ld) {
+								if st, ok := r3.(*ssa.Store); ok && st.Val == ssa.Value(ld) {
+									if al, ok := st.Addr.(*ssa.Alloc); ok {
+										elem = al
+									}
+								}
+							}
+						}
+					}
+				}
+				if elem == nil {
+					continue
+				}
+				nCursor++
+				fromElem := func(v ssa.Value) bool {
+					return derivesLocally(v, func(x ssa.Value) bool {
+						switch y := x.(type) {
+						case *ssa.UnOp:
+							if y.Op != token.MUL {
+								return false
+							}
+							if y.X == ssa.Value(elem) {
+								return true
+							}
+							if fa, ok := y.X.(*ssa.FieldAddr); ok && fa.X == ssa.Value(elem) {
+								return true
+							}
+						case *ssa.Call:
+							for _, a := range y.Call.Args {
+								if ld, ok := a.(*ssa.UnOp); ok && ld.Op == token.MUL && ld.X == ssa.Value(elem) {
+									return true
+								}
+							}
+						}
+						return false
+					})
+				}
+				outerField := func(v ssa.Value) bool {
+					ld, ok := stripConv(v).(*ssa.UnOp)
+					if !ok || ld.Op != token.MUL {
+						return false
+					}
+					fa, ok := ld.X.(*ssa.FieldAddr)
+					if !ok {
+						return false
+					}
+					al, ok := fa.X.(*ssa.Alloc)
+					return ok && al != elem && namedIs(al.Type(), repoPath("ovmf"), "GuestPhysicalRegion")
+				}
+				for _, inc := range incs {
+					justified := ""
+					for _, cf := range dominatingConds(inc.Block()) {
+						if !L.Body[cf.Block] {
+							continue
+						}
+						op, other, ok := relFact(cf, fromElem)
+						if !ok {
+							continue
+						}
+						if k, isK := constInt(other); isK && k == 0 && op == token.EQL {
+							justified = "element is empty"
+						}
+						if (op == token.LEQ || op == token.LSS) && outerField(other) && !fromElem(other) {
+							justified = "element ends at or before the current outer element's start"
+						}
+					}
+					construct := load.FuncName(f) + ":cursor advance"
+					c.S.Check(justified != "", "R5", construct, c.pos(inc.Pos()), "shared cursor advanced because the "+justified,
+						"the cursor into the sorted section list is shared by all RAM banks, and here it is advanced without the edge `element empty` or `element ≤ current bank start` (the invariant stated in the function: every skipped section ends before the current bank starts): a section that continues into the next bank is skipped there and reported as unaccepted memory")
+				}
+			}
+		}
+	}
+	c.S.Floor("R5", "cursors shared across the outer loop of a two-list sweep in package ovmf", 1, nCursor)
+}
+
+// sortOnCopiesRule: every sort call in the selected functions sorts a slice
+// allocated in the same function (a copy), so declared orders survive.
+func (c *Ctx) sortOnCopiesRule(rule string, sel func(*ssa.Function) bool) int {
+	nSort := 0
+	for _, f := range c.P.RepoFunctions() {
+		if !sel(f) || c.isTestFunc(f) {
+			continue
+		}
+		for _, call := range callsIn(f, func(call ssa.CallInstruction) bool {
+			cal := call.Common().StaticCallee()
+			if cal == nil {
+				return false
+			}
+			if o := cal.Origin(); o != nil {
+				cal = o
+			}
+			n := cal.String()
+			return strings.HasPrefix(n, "slices.Sort") || strings.HasPrefix(n, "golang.org/x/exp/slices.Sort") || n == "sort.Slice" || n == "sort.SliceStable" || n == "sort.Sort" || n == "sort.Stable"
+		}) {
+			nSort++
+			arg := call.Common().Args[0]
+			if mi, ok := arg.(*ssa.MakeInterface); ok {
+				arg = mi.X
+			}
+			eff := &flow.Effects{P: c.P, Funcs: map[*ssa.Function]bool{f: true}, Roots: map[*ssa.Function]bool{f: true}}
+			fresh := true
+			for _, r := range eff.ProvenanceOf(arg, f) {
+				if r.Kind != flow.Fresh {
+					fresh = false
+				}
+			}
+			c.S.Check(fresh, rule, load.FuncName(f)+":sort", c.pos(call.Pos()), "sorts a slice allocated in this function (a copy)", "a caller's slice is sorted in place: the declared order of sections / regions is lost")
+		}
+	}
+	return nSort
 }
